@@ -158,6 +158,16 @@ class TS:
                         visit_expr(it.context_expr, cleared)
                     if not block(s.body, cleared):
                         return False
+                elif isinstance(s, ast.Match):
+                    visit_expr(s.subject, cleared)
+                    ok = [set(cleared)]
+                    for c in s.cases:
+                        cc = set(cleared)
+                        if block(c.body, cc):
+                            ok.append(cc)
+                    new = set.intersection(*ok)
+                    cleared.clear()
+                    cleared |= new
                 elif isinstance(s, (ast.FunctionDef, ast.AsyncFunctionDef, ast.ClassDef)):
                     continue
                 elif isinstance(s, ast.Delete):
